@@ -77,21 +77,21 @@ type Violation struct {
 }
 
 type RunResult struct {
-	Log       []string      `json:"-"`
-	LogHash   string        `json:"log_hash"`
-	Procs     []*ProcResult `json:"procs"`
-	Decisions []int         `json:"decisions"`
-	Stats     RunStats      `json:"stats"`
-	Hang      string        `json:"hang,omitempty"`
-	LimitHit  bool          `json:"limit_hit,omitempty"`
-	Final     DirState      `json:"-"`
-	BubbleErr string        `json:"bubble_err,omitempty"`
-	TraceHash string        `json:"trace_hash"` // hash of scheduling-relevant trace only
-	PoolReissued int        `json:"pool_reissued"`
-	FinalIDs   map[string]fileID `json:"-"`
-	StartIDs   map[string]fileID `json:"-"`
-	ProcYields []int        `json:"-"`
-	StepHits   []map[string]int `json:"-"`
+	Log          []string          `json:"-"`
+	LogHash      string            `json:"log_hash"`
+	Procs        []*ProcResult     `json:"procs"`
+	Decisions    []int             `json:"decisions"`
+	Stats        RunStats          `json:"stats"`
+	Hang         string            `json:"hang,omitempty"`
+	LimitHit     bool              `json:"limit_hit,omitempty"`
+	Final        DirState          `json:"-"`
+	BubbleErr    string            `json:"bubble_err,omitempty"`
+	TraceHash    string            `json:"trace_hash"` // hash of scheduling-relevant trace only
+	PoolReissued int               `json:"pool_reissued"`
+	FinalIDs     map[string]fileID `json:"-"`
+	StartIDs     map[string]fileID `json:"-"`
+	ProcYields   []int             `json:"-"`
+	StepHits     []map[string]int  `json:"-"`
 }
 
 var runCounter int
@@ -110,9 +110,18 @@ func setupBase() {
 			base = os.TempDir()
 		}
 	}
-	d, err := os.MkdirTemp(base, "verifsim-")
-	if err != nil {
-		panic(err)
+	// a name of constant length: csvq prints paths in boxes whose width follows
+	// the path length (SHOW FIELDS), and outputs must not depend on the process
+	var d string
+	for i := 0; ; i++ {
+		d = filepath.Join(base, fmt.Sprintf("verifsim-%07d-%08x", os.Getpid()%10000000, uint32(time.Now().UnixNano())+uint32(i)))
+		err := os.Mkdir(d, 0700)
+		if err == nil {
+			break
+		}
+		if !os.IsExist(err) || i > 1000 {
+			panic(err)
+		}
 	}
 	BaseDir = d
 	home := filepath.Join(d, "home")
@@ -164,7 +173,7 @@ func writeFiles(dir string, files []FileSpec) error {
 func Execute(t *testing.T, sc *Scenario, dec *Decider, obs ...Observer) (*RunResult, *Kernel) {
 	setupBase()
 	runCounter++
-	dir := filepath.Join(BaseDir, fmt.Sprintf("r%d", runCounter))
+	dir := filepath.Join(BaseDir, fmt.Sprintf("r%08d", runCounter))
 	if err := os.MkdirAll(dir, 0755); err != nil {
 		panic(err)
 	}
